@@ -1,8 +1,9 @@
 (* Case type and comparison functions evaluated by the C19 correspondence harness: the effect the model
-   predicts for (operation, field type) -- computed from the site facts GENERATED from /repo -- against the
-   effect observed on the real implementation by deep snapshots and mutation of arguments / results. *)
+   predicts for (operation, owner kind, field type, argument shape) -- computed from the site facts and the
+   isinstance tables GENERATED from /repo -- against the effect observed on the real implementation by deep
+   snapshots and mutation of arguments / results. *)
 From Coq Require Import ZArith NArith String List Bool. Import ListNotations.
-From TP Require Export Base.PyVal Base.PyEq Struct.Alias Gen.AliasSites.
+From TP Require Export Base.PyVal Base.PyEq Struct.Alias Struct.AliasIntake Gen.AliasSites Gen.AliasTables.
 
 (* (argument written by the call, argument retained by reference, result aliases internal state) *)
 Definition obs := (bool * bool * bool)%type.
@@ -11,33 +12,49 @@ Definition obs_eqb (a b : obs) : bool :=
 Definition obs_any (a : obs) : bool := let '(a1, a2, a3) := a in a1 || a2 || a3.
 
 Inductive case :=
-| CField (op : opid) (immutable : bool) (t : aty) (o : obs)
+| CIntake (op : opid) (own : owner) (t : aty) (v : vshape) (o : obs)   (* constructor / setattr / deserialization *)
+| CField (op : opid) (immutable : bool) (t : aty) (o : obs)            (* serialization paths, trusted deserialization *)
 | CSop (s : sop) (o : obs).
+
+Definition intake_deser (op : opid) : bool := match op with ODeser => true | _ => false end.
 
 Definition model (c : case) : obs :=
   match c with
-  | CField op imm t _ =>
-      let '(w, r, l) := predict alias_sites op t in
-      (* an ImmutableStructure deep-copies what it is given and what it hands out *)
+  | CIntake op own t v _ =>
       match op with
-      | OCtor | OSetattr | ODeser => (w, r && negb imm, l)
-      | _ => (w, r, l)
+      | OCtor | ODeser => (false, retains alias_sites copy_tables own (intake_deser op) t v, false)
+      | OSetattr =>
+          (* assignment to a field of an immutable owner raises: nothing is taken *)
+          (false, negb (owner_immutable own) && retains alias_sites copy_tables own false t v, false)
+      | _ => (true, true, true)       (* not an intake operation: never generated *)
       end
+  | CField op imm t _ => predict alias_sites op t
   | CSop s _ => predict_sop alias_sites s
   end.
 
-Definition observed (c : case) : obs := match c with CField _ _ _ o => o | CSop _ o => o end.
+Definition observed (c : case) : obs :=
+  match c with CIntake _ _ _ _ o => o | CField _ _ _ o => o | CSop _ o => o end.
 
-Definition mismatch (c : case) : bool := negb (obs_eqb (model c) (observed c)).
+(* the generated argument has the shape its declared type admits (a generator error otherwise) *)
+Definition well_shaped (c : case) : bool :=
+  match c with
+  | CIntake op _ t v _ => shape_ok (intake_deser op) t v
+  | _ => true
+  end.
 
-(* the property speaks about typed fields; Anything / untyped positions are handed by reference by design *)
+Definition mismatch (c : case) : bool := negb (well_shaped c) || negb (obs_eqb (model c) (observed c)).
+
+(* the property speaks about typed fields; Anything / untyped positions of a MUTABLE owner are handed by reference by
+   design; an immutable owner (ImmutableStructure, or a field declared immutable) copies defensively whatever the type *)
 Definition in_scope (c : case) : bool :=
   match c with
-  | CField _ imm t _ => typed_inside t || imm     (* an ImmutableStructure copies defensively whatever the type *)
+  | CIntake _ own t _ _ => typed_inside t || owner_immutable own
+  | CField _ imm t _ => typed_inside t || imm
+  | CSop (SVersionedDeser b) _ => b     (* an untyped field of a mutable Versioned class is outside the claim *)
   | CSop _ _ => true
   end.
 
 (* C19's clauses on the observed behaviour *)
 Definition violates (c : case) : bool := in_scope c && obs_any (observed c).
-(* what the model (with the current generated sites) says is a defect *)
+(* what the model (with the current generated sites and tables) says is a defect *)
 Definition predicted_violation (c : case) : bool := in_scope c && obs_any (model c).
